@@ -34,7 +34,7 @@ class C11(BaseCheck):
              'scales.kafka.sink:KafkaTransportSink._ProcessReply')
   REQUIRED_ANCHORS = ANCHORS
   REQUIRED_CLASSES = ('thriftmux', 'kafka', 'adv:duplicate-reply', 'adv:unknown-tag', 'adv:reserved-tag-1',
-                      'adv:tag-0', 'adv:huge-tag', 'adv:bitflip-tag', 'error-frame-replies', 'kafka:timeouts', 'tagpool:exhausted', 'tagpool:get-after-refusal', 'direct:bare-messages', 'direct:expired-while-opening', 'direct:retry-from-reply-handler', 'timeout-before-send', 'timeout-after-send', 're-open',
+                      'adv:tag-0', 'adv:huge-tag', 'adv:bitflip-tag', 'error-frame-replies', 'kafka:timeouts', 'tagpool:exhausted', 'tagpool:get-after-refusal', 'direct:bare-messages', 'direct:expired-while-opening', 'direct:retry-from-reply-handler', 'direct:answered-after-expiry-in-queue', 'timeout-before-send', 'timeout-after-send', 're-open',
                       'tag-reuse')
   ASSUMPTIONS = ('a tag counts as answered when the client has read the last byte of any R-frame carrying it '
                  '(known from the simulated socket\'s read offsets)',)
@@ -404,10 +404,32 @@ class C11(BaseCheck):
     for i in range(b):
       request(k + m + i, 5.0)
     env.advance(1.0)
+    # stalled writer: a request with a short deadline waits behind a blocked write, times out there,
+    # the peer then answers its tag (before it was ever written), a new request takes the recycled
+    # tag, and only then does the writer get going again: the expired request must stay unwritten
+    from vlib import muxcodec as mc
+    if rng.random() < 0.7 and srv.sim.conns and not srv.sim.conns[-1].client_closed:
+      classes.add('direct:answered-after-expiry-in-queue')
+      conn = srv.sim.conns[-1]
+      srv.sim.send_delay = lambda c_: 0.3
+      base = k + m + b
+      request(base, 5.0)                      # its write blocks the send loop
+      env.advance(0.001)
+      seen_tags = [q['tag'] for q in srv.requests if q['conn'] == conn.id]
+      request(base + 1, 0.05)                 # queued behind it; expires there
+      env.advance(0.06)
+      # the tag it was given: the pool hands out freed tags first, else the next fresh one
+      free_ = sorted(getattr(top.next_sink.next_sink._tag_pool, '_set', ()))
+      for t_ in set(range(2, max(seen_tags or [2]) + 4)):
+        conn.write(mc.frame(mc.R_DISPATCH, t_, mc.rdispatch_body(mc.ST_ERROR, [], b'early')), 0.0, None, 'adv:%d' % t_)
+      env.advance(0.01)
+      request(base + 2, 5.0)                  # takes a recycled tag
+      srv.sim.send_delay = None
+      env.advance(1.5)
     maxtag, _reuse = self._monitor(env, out, None, 'srv.frame', facts, start=ev_start)
     out.obligations += 1
     hi = max(maxtag.values() or [1])
-    bound = 1 + max(k, b, 1)
+    bound = 1 + max(k, b, 1) + 3
     if hi > bound:
       out.violate('tag:unbounded-consumption', 'highest tag %d: %d requests expired while the connection was opening '
                   '(%d of them were written), then %d sequential calls and a burst of %d; at most %d requests ever held a '
